@@ -103,3 +103,14 @@ Qed.
 Theorem reset_src n key s :
   (conv key (fst (reset_from n s)), snd (reset_from n s), conv_obs (reset_obs n s)) = M.reset n (conv key s).
 Proof. unfold reset_from, reset_obs, M.reset, M.observe. rewrite valid_src. reflexivity. Qed.
+
+(* C03 on the translated step: never FIRST, MID with discount 1 or LAST with discount 0 (no truncation) *)
+Require JV.Proofs.SlidingTile_Episode.
+Lemma src_step_protocol n T rw (key : list Z) s a :
+  wf n (s_puzzle s) -> M.in_grid n (s_empty_tile_position s) = true -> wf n (M.goal n) ->
+  step_ok 1 false (snd (step n T (M.goal n) (reward_src rw) s a)) = true.
+Proof.
+  intros W I G. pose proof (step_src n T rw key s a W I G) as E. cbv zeta in E.
+  assert (E2 : snd (step n T (M.goal n) (reward_src rw) s a) = snd (fst (M.step n T rw (conv key s) a))) by (rewrite <- E; reflexivity).
+  rewrite E2. exact (proj1 (JV.Proofs.SlidingTile_Episode.step_protocol n T rw (conv key s) a)).
+Qed.
